@@ -294,7 +294,40 @@ def ForRender(prog):
       n.clear()
       n.update(Var(name))
   _Walk(p['preds'], Fix)
+  _Chains(p['preds'])
   return p
+
+
+def _Chains(x):
+  """An `if` node marked "form": "chain" whose else-branch is an `if` is
+  written as ONE else-if chain, `(if c1 then a else if c2 then b else d)`
+  (ir.RenderExpr parenthesises every `if`, which makes the inner one a
+  separate implication).  Same trick as for Bool literals: the text goes
+  through a variable node.  The IR (and the specification) keep nested ifs -
+  every condition must be Bool either way."""
+  if isinstance(x, list):
+    for v in x:
+      _Chains(v)
+    return
+  if not isinstance(x, dict):
+    return
+  for v in list(x.values()):
+    _Chains(v)
+  if x.get('k') == 'if' and x.get('form') == 'chain':
+    parts = []
+    node = x
+    while True:
+      parts.append('if %s then %s' % (ir.RenderExpr(node['c']),
+                                      ir.RenderExpr(node['t'])))
+      nxt = node['f']
+      if nxt.get('k') == 'if' and nxt.get('form') == 'chain_inner':
+        node = nxt
+        continue
+      parts.append(ir.RenderExpr(nxt))
+      break
+    text = '(' + ' else '.join(parts) + ')'
+    x.clear()
+    x.update(Var(text))
 
 
 def Render(prog):
